@@ -649,6 +649,85 @@ func (ck *checker) check(op string, p jpref.Path, d0 any, enum bool, modKind str
 				want = w
 			}
 		}
+		if !eq(want, result) && (op == "Remove" || op == "Del") && hasFilter(p) {
+			// the same interleaving in general: removals happen innermost first, and a filter further out
+			// is evaluated on the data as it is by then. Accepted: every state reached by removing, step by
+			// step, a non-empty set of outermost locations the path selects on the current state (bounded
+			// search; a search that hits its bound leaves the case undecided, never a violation).
+			// Within one container all members are tested against the same state, so a later step only
+			// removes locations strictly nearer to the root than everything removed before it.
+			type st struct {
+				v     any
+				limit int // depth bound for the next step
+			}
+			depthOf := func(k string) int { return strings.Count(k, "/") }
+			seen := map[string]bool{}
+			front := []st{{d0, 1 << 30}}
+			found, capped := false, false
+			target := treegen.Show(normTree(result))
+		search:
+			for depth := 0; depth < 4 && len(front) > 0; depth++ {
+				var next []st
+				for _, sv := range front {
+					ls := map[string]bool{}
+					for _, r := range jpref.Eval(p, sv.v, jpref.Res{Loc: []any{}, V: sv.v}) {
+						ls[locKey(r.Loc)] = true
+					}
+					o, _ := outermost(ls)
+					var ks []string
+					for _, k := range keys(o) {
+						if depthOf(k) < sv.limit {
+							ks = append(ks, k)
+						}
+					}
+					if len(ks) > 10 {
+						capped = true
+						continue
+					}
+					for mask := 1; mask < 1<<len(ks); mask++ {
+						sub := map[string]bool{}
+						lim := 1 << 30
+						for i, k := range ks {
+							if mask&(1<<i) != 0 {
+								sub[k] = true
+								if d := depthOf(k); d < lim {
+									lim = d
+								}
+							}
+						}
+						var w any
+						if op == "Remove" {
+							w = refRemove(sv.v, nil, sub)
+						} else {
+							w = refDel(sv.v, nil, sub)
+						}
+						key := treegen.Show(normTree(w))
+						if key == target {
+							found = true
+							want = w
+							break search
+						}
+						key += fmt.Sprint("@", lim)
+						if seen[key] {
+							continue
+						}
+						seen[key] = true
+						if len(seen) > 20000 {
+							capped = true
+							break search
+						}
+						next = append(next, st{w, lim})
+					}
+				}
+				front = next
+			}
+			if found {
+				c.Cover("accepted:remove-interleaved-with-filter-evaluation")
+			} else if capped {
+				c.Cover("undecided:remove-interleaving-search-capped")
+				return
+			}
+		}
 		if !eq(want, result) && (op == "Remove" || op == "Del") && hasRootOperand(p) && len(out0) <= 8 {
 			// a filter operand rooted at the document is evaluated while members are being deleted from
 			// maps in place (in Go map order): when the operand's own location is among the removed ones
@@ -775,10 +854,14 @@ func (ck *checker) otherRepr(repr, op string, x jp.Expr, td, d0, result, val any
 	// the property ties the mutators to what Get selects on the same data: where Get itself selects
 	// something else on this representation than on the simple data (C11's subject), the comparison with the
 	// simple outcome says nothing about the mutator
-	var g0, g1 []any
-	if pn := mon.Guard(func() { g0, g1 = x.Get(d0), x.Get(td) }); pn != nil || !sameSelection(g0, g1) {
-		c.Cover("twin-skipped:get-selects-differently-on-" + repr)
-		return
+	// (checked for every prefix of the path: Set creates members below locations that an inner fragment
+	// selects, so the whole path can select nothing on both representations while a prefix differs)
+	for i := len(x); 0 < i; i-- {
+		var g0, g1 []any
+		if pn := mon.Guard(func() { g0, g1 = x[:i].Get(d0), x[:i].Get(td) }); pn != nil || !sameSelection(g0, g1) {
+			c.Cover("twin-skipped:get-selects-differently-on-" + repr)
+			return
+		}
 	}
 	tres, terr, tpn := apply(op, x, td, val, mod)
 	c.Cover("twin:" + repr)
@@ -943,7 +1026,9 @@ func (ck *checker) setPost(op string, p jpref.Path, d0, d any, l0, out0 map[stri
 			}
 		} else {
 			for l := range out0 {
-				if _, still := f1[l]; still && !isVal(l) && !above(l, l0) {
+				// (a location above another selected one, or above a member the call creates, holds a
+				// container and not the value when the inner location is written last)
+				if _, still := f1[l]; still && !isVal(l) && !above(l, l0) && !above(l, creatable) {
 					c.Violation("jp.Expr.Set", "selected-not-set", class, cs, fmt.Sprintf("%s = %s", l, valShown), fmt.Sprintf("%s ; data after: %s", f1[l], clip(treegen.Show(d))))
 					return
 				}
@@ -1055,6 +1140,43 @@ func run(c *mon.Ctx) {
 				ck.check(op, jpref.Path{jpspec.Root(), jpspec.Nth(a)}, flat, true, "")
 				for b := -L - 2; b <= L+2; b++ {
 					ck.check(op, jpref.Path{jpspec.Root(), jpspec.Union(a, b)}, flat, true, "")
+				}
+			}
+		}
+	}
+	// a filter whose operand is rooted at the document and points into the very array being filtered:
+	// every array over {1,2,3} of length 2-4 (and one of length 5), every position, every comparison
+	for L := 2; L <= 5; L++ {
+		total := 1
+		for i := 0; i < L; i++ {
+			total *= 3
+		}
+		for code := 0; code < total; code++ {
+			idx++
+			if !c.Mine(idx) || (L == 5 && code%7 != 0) {
+				continue
+			}
+			mk := func() []any {
+				a := make([]any, L)
+				for i, cc := 0, code; i < L; i, cc = i+1, cc/3 {
+					a[i] = int64(1 + cc%3)
+				}
+				return a
+			}
+			for k := 0; k < L; k++ {
+				for _, cmp := range []string{"lt", "lte", "gt", "gte", "eq", "neq"} {
+					c.Cover("lattice:filter-operand-inside-filtered-array")
+					top := jpref.Path{jpspec.Root(), jpspec.Filter(jpspec.Bin(cmp, jpspec.P(jpspec.At()), jpspec.P(jpspec.Root(), jpspec.Nth(k))))}
+					in := jpref.Path{jpspec.Root(), jpspec.Child("list"), jpspec.Filter(jpspec.Bin(cmp, jpspec.P(jpspec.At()), jpspec.P(jpspec.Root(), jpspec.Child("list"), jpspec.Nth(k-L))))}
+					for _, op := range []string{"Remove", "RemoveOne", "Modify", "ModifyOne"} {
+						if strings.HasPrefix(op, "Modify") && (cmp == "lte" || cmp == "gte" || cmp == "eq") {
+							// the element the operand points at selects itself; once the modifier has replaced
+							// it the later comparisons read the new value (evaluation and mutation interleave)
+							continue
+						}
+						ck.check(op, top, mk(), true, "")
+						ck.check(op, in, map[string]any{"k": int64(7), "list": mk()}, true, "")
+					}
 				}
 			}
 		}
